@@ -135,6 +135,10 @@ Universe == <<
     \* two type parameters, and a generic subclass that hands them to its base in the other order
     Cls("Two", <<"T", "U">>, NoAnn, <<Mth("first", TVar("T")), Mth("second", TVar("U"))>>),
     Cls("Swap", <<"T", "U">>, Ty("Two", <<TVar("U"), TVar("T")>>), <<Mth("mine", TVar("T"))>>),
+    \* a user generic class NAMED like an export of typing (Container), and a two-parameter subclass that hands its SECOND
+    \* parameter to it: the variable T means something else at each level
+    Cls("Container", <<"T">>, NoAnn, <<Mth("first", TVar("T")), Mth("all", Iter(TVar("T")))>>),
+    Cls("Assoc", <<"T", "U">>, Ty("Container", <<TVar("U")>>), <<Mth("key", TVar("T")), Mth("keys", Iter(TVar("T")))>>),
     DCls("Part", <<Mth("pt", FloatT), Mth("idx", IntT), Mth("parent", Ty0("Part")),
                    Mth("kids", Iter(Ty0("Part")))>>, <<Mth("good", BoolT)>>),
     Cls("Evt", <<>>, NoAnn, <<Mth("met", FloatT), Mth("nj", IntT), Mth("flag", BoolT), Mth("part", Ty0("Part")),
@@ -142,7 +146,8 @@ Universe == <<
                               Mth("box", Ty("Box", <<Ty0("Jet")>>)), Mth("jb", Ty0("JetBox")),
                               Mth("re", Ty("Re", <<Ty0("Trk")>>)), Mth("jetiter", Ty0("JetIter")),
                               Mth("myiter", Ty("MyIter", <<Ty0("Trk")>>)), Mth("noann", NoAnn),
-                              Mth("calib", Ty0("CalibIter")), Mth("swap", Ty("Swap", <<Ty0("Jet"), Ty0("Trk")>>))>>) >>
+                              Mth("calib", Ty0("CalibIter")), Mth("swap", Ty("Swap", <<Ty0("Jet"), Ty0("Trk")>>)),
+                              Mth("assoc", Ty("Assoc", <<Ty0("Jet"), Ty0("Trk")>>))>>) >>
 (* operators a registered collection class adds to every iterable: name -> "elem" | "int" *)
 ExtraCollectionOps == <<Mth("Second", TVar("elem")), Mth("Size2", IntT)>>
 
